@@ -665,12 +665,27 @@ def ctxs_of(consts):
     return sorted(set(json.loads(consts.get("Ctx", '{"c1", "c2", "c3"}').replace("{", "[").replace("}", "]"))) - {"c4"})
 
 
+def fix_ticks(acts, salt=0):
+    """A behaviour may end (depth bound, constraint cut) between a tick statement and its occurrence: that statement
+    is then an ordinary one.  How the pair is written - top-level statements or inside a running function - is a
+    rendering choice the model does not make (tvia); a fixed function of the position, so that replays agree."""
+    for i, a in enumerate(acts):
+        if a.get("tick") and (i + 1 >= len(acts) or acts[i + 1]["a"] not in ("fire", "set", "call")):
+            a["tick"] = False
+        if a.get("tick") and "tvia" not in a:
+            a["tvia"] = "run" if (i + salt) % 2 else "exec"
+    return acts
+
+
 def to_cases(behs, ctxs, prefix, subs=("dm", "legacy")):
     cases = []
     for i, b in enumerate(behs):
+        fix_ticks(b["acts"], i)
         for sub in subs:
             cases.append({"id": "%s%d/%s" % (prefix, i, sub), "sub": sub, "started": b["started"], "ctxs": ctxs,
-                          "steps": [{"act": a} for a in b["acts"]]})
+                          "steps": [{"act": dict(a)} for a in b["acts"]]})
+            if b.get("victims"):
+                cases[-1]["victims"] = b["victims"]
     return cases
 
 
@@ -831,9 +846,34 @@ def gen_random(r, nsteps, ctxs, mask):
              "import"]
     weights = [18, 8, 5, 12, 4, 4, 7, 2, 1, 9, 9, 13, 3, 6]
     tries = 0
+
+    def behind(before, newgen=None):
+        """With probability 1/3 the script goes on, right behind the statement just appended, with an occurrence -
+        preferably one the generations that have just lost their last reference were waiting for."""
+        if not coin(0.34):
+            return
+        lost = [gens[g - 1]["d"] for g in sorted(before - referenced())]
+        hot = set(newgen["svc"]) if newgen else set()
+        only = {s for g in gens for s in g["d"]["svc"] if g["d"]["resp"] == "only"}
+        cands = []
+        for d in lost:
+            cands += [{"a": "fire", "e": e} for e in d["ev"]] + [{"a": "set", "x": n.split(".")[0]} for n in d["st"]]
+            cands += [{"a": "call", "s": sv, "data": r.choice(["-", "p=1", "p=2,q=x"]), "rr": False} for sv in d["svc"]]
+        if not cands or coin(0.25):
+            cands = [{"a": "fire", "e": e} for e in EV] + [{"a": "set", "x": x} for x in ENT]
+            cands += [{"a": "call", "s": sv, "data": "p=1", "rr": False} for sv in SVC]
+        # (a call right behind the statement: without response; not of a name the new definition declares)
+        cands = [o for o in cands if o["a"] != "call" or (o["s"] not in hot and o["s"] not in only)]
+        if not cands:
+            return
+        acts[-1]["tick"] = True
+        acts[-1]["tvia"] = r.choice(["exec", "run"])
+        acts.append(r.choice(cands))
+
     while len(acts) < nsteps and tries < nsteps * 30:
         tries += 1
         k = r.choices(kinds, weights)[0]
+        before = referenced()
         if k == "unload":
             if len(acts) < nsteps * 0.7:
                 continue
@@ -908,6 +948,7 @@ def gen_random(r, nsteps, ctxs, mask):
                 gens.append({"c": c, "d": d})
                 bind[c][n] = len(gens)
                 acts.append({"a": "define", "c": c, "n": n, "d": d, "g": len(gens)})
+                behind(before, d)
             elif k == "del":
                 bound = [n for n in names if bind[c][n]]
                 if not bound:
@@ -915,6 +956,7 @@ def gen_random(r, nsteps, ctxs, mask):
                 n = r.choice(bound)
                 bind[c][n] = 0
                 acts.append({"a": "del", "c": c, "n": n})
+                behind(before)
             elif k == "rebind":
                 pairs = [(n, m) for n in names for m in names if n != m and bind[c][m] and bind[c][n] != bind[c][m]]
                 if not pairs:
@@ -922,6 +964,7 @@ def gen_random(r, nsteps, ctxs, mask):
                 n, m = r.choice(pairs)
                 bind[c][n] = bind[c][m]
                 acts.append({"a": "rebind", "c": c, "n": n, "m": m})
+                behind(before)
             elif k == "push":
                 via = "run" if r.random() < 0.3 else "exec"
                 where = r.choice(["L", "D"])
@@ -936,11 +979,13 @@ def gen_random(r, nsteps, ctxs, mask):
                 else:
                     cont[c]["D"] = len(gens)
                 acts.append({"a": "push", "c": c, "d": d, "where": where, "via": via, "g": len(gens)})
+                behind(before, d)
             elif k == "pop":
                 if not cont[c]["L"]:
                     continue
                 cont[c]["L"].pop()
                 acts.append({"a": "pop", "c": c})
+                behind(before)
             elif k == "clear":
                 where = r.choice(["L", "D"])
                 if (where == "L" and not cont[c]["L"]) or (where == "D" and not cont[c]["D"]):
@@ -950,6 +995,7 @@ def gen_random(r, nsteps, ctxs, mask):
                 else:
                     cont[c]["D"] = 0
                 acts.append({"a": "clear", "c": c, "where": where})
+                behind(before)
             elif k == "out":
                 acts.append({"a": "out", "c": c, "form": r.choice(["name", "call"]), "give": r.choice(OUT_GIVE)})
     return {"started": started, "acts": acts}
@@ -1101,9 +1147,24 @@ def selftest(ctx, accepted_cases, want=24):
     kinds = set()
     r = random.Random(ctx.seed)
     for c in accepted_cases:
-        if len(bad) >= want and kinds >= {"import", "fail", "case"}:
+        if len(bad) >= want and kinds >= {"import", "fail", "case", "tick"}:
             break
         if any(s["act"].get("rush") for s in c["steps"]):
+            continue
+        # an occurrence right behind the deleting statement that runs the deleted function (or finds its service)
+        for v in c.get("victims", []):
+            o = c["steps"][v["step"]]["obs"]
+            if v["run"] in o["runs"]:
+                continue
+            c2 = copy.deepcopy(slim(c))
+            c2["id"] = "corrupt-tick%d/%s" % (v["step"], c["id"])
+            o2 = c2["steps"][v["step"]]["obs"]
+            o2["runs"] = sorted(o2["runs"] + [v["run"]], key=lambda x: (x["g"], x["k"], x["x"], x["data"]))
+            if v["run"]["k"] == "service":
+                o2["res"]["k"] = "none"
+            bad.append(c2)
+            kinds.add("tick")
+        if any(s["act"].get("tick") for s in c["steps"]):
             continue
         steps = c["steps"]
         idx = [i for i, s in enumerate(steps) if s["obs"]["runs"]]
@@ -1224,6 +1285,80 @@ def gen_race(r):
     return {"started": True, "acts": acts}
 
 
+# ------------------------------------------------------------------------------------------------
+# the statement that takes the last reference away, followed by the same script by an occurrence (tick)
+TICK_DECLS = [D(ev=["e1"]), D(ev=["e1"], svc=["s1"]), D(st=["a"], ev=["e2"]), D(st=["a", "b"], ev=["e1"], svc=["s2"], resp="optional"),
+              D(ev=["e1", "e2"], tt=["shutdown"]), D(st=["b"], svc=["S3"]), D(st=["c"], ev=["e1"], tt=["timer"]),
+              D(ev=["e2"], svc=["s1", "s2"], sf="args")]
+
+
+def occ_for(r, d, avoid=()):
+    """An occurrence the declaration d waits for (a call: without response, not of a name in avoid)."""
+    cands = [{"a": "fire", "e": e} for e in d["ev"]] + [{"a": "set", "x": n.split(".")[0]} for n in d["st"]]
+    cands += [{"a": "call", "s": sv, "data": r.choice(["-", "p=1", "p=2,q=x"]), "rr": False} for sv in d["svc"] if sv not in avoid]
+    return r.choice(cands)
+
+
+def victim_run(o, g):
+    """The run of generation g that the occurrence o would cause if g were still subscribed."""
+    if o["a"] == "fire":
+        return {"g": g, "k": "event", "x": o["e"], "data": "p=1"}
+    if o["a"] == "set":
+        return {"g": g, "k": "state", "x": o["x"], "data": "-"}
+    return {"g": g, "k": "service", "x": "-", "data": o["data"]}
+
+
+def gen_tick(r):
+    """Random member of the family: a function (generation 1) held by a global name / the dict slot / the list, next
+    to a bystander (generation 2) with the same triggers held elsewhere; ONE statement takes the last reference of
+    generation 1 away - del, rebinding over it, redefinition, a store over the dict slot, clear, pop - written at
+    top level or inside a running function, in a file, an app or a Jupyter session; the same script goes on at once
+    with an occurrence generation 1 was waiting for; then the same occurrence at quiescence, and unload."""
+    c = r.choice(["c1", "c2", "c3"])
+    d = r.choice(TICK_DECLS)
+    by = dict(d, svc=[], resp="none", sf="stack")       # the bystander: same triggers, no service
+    d3 = r.choice(TICK_DECLS)
+    hold = r.choice(["name", "name", "D", "L"])
+    tvia = r.choice(["exec", "run"])
+    acts = []
+    if by["ev"] or by["st"] or by["tt"]:
+        acts.append({"a": "define", "c": c, "n": "g", "d": by, "g": 1})
+    g1 = len(acts) + 1
+    new = None
+    if hold == "name":
+        acts.append({"a": "define", "c": c, "n": "f", "d": d, "g": g1})
+        how = r.choice(["del", "rebind", "redef"] if len(acts) == 2 else ["del", "redef"])
+        if how == "del":
+            acts.append({"a": "del", "c": c, "n": "f"})
+        elif how == "rebind":
+            acts.append({"a": "rebind", "c": c, "n": "f", "m": "g"})
+        else:
+            new = d3
+            acts.append({"a": "define", "c": c, "n": "f", "d": d3, "g": g1 + 1})
+    elif hold == "D":
+        acts.append({"a": "push", "c": c, "d": d, "where": "D", "via": "exec", "g": g1})
+        if r.random() < 0.5 and not d3["tt"]:
+            new = d3 = dict(d3, svc=d3["svc"][:1], sf="stack")
+            tvia = r.choice(["exec", "run"])
+            acts.append({"a": "push", "c": c, "d": d3, "where": "D", "via": tvia, "g": g1 + 1})
+        else:
+            acts.append({"a": "clear", "c": c, "where": "D"})
+    else:
+        acts.append({"a": "push", "c": c, "d": d, "where": "L", "via": "exec", "g": g1})
+        acts.append(r.choice([{"a": "pop", "c": c}, {"a": "clear", "c": c, "where": "L"}]))
+    # (a call: only of a name the new definition does not declare; a function that is merely redefined / replaced by
+    # a definition with the same service is then asked something else)
+    only_svc = not (d["ev"] or d["st"])
+    avoid = set(new["svc"]) if new else set()
+    if only_svc and set(d["svc"]) <= avoid:
+        return gen_tick(r)
+    o = occ_for(r, d, avoid)
+    acts[-1]["tick"] = True
+    acts[-1]["tvia"] = tvia
+    acts += [o, dict(o), {"a": "set", "x": "a"}, {"a": "fire", "e": "e1"}, {"a": "unload"}]
+    return {"started": True, "acts": acts, "victims": [{"step": len(acts) - 5, "run": victim_run(o, g1)}]}
+
+
 def witnesses(race=True):
     s1 = D(svc=["s1"])
     multi = D(st=["a", "a.old", "b", "c"])
@@ -1342,11 +1477,66 @@ def witnesses(race=True):
                                     {"a": "define", "c": "c1", "n": "f", "d": cap, "g": 2}, call1,
                                     {"a": "define", "c": "c2", "n": "g", "d": cap, "g": 3}, {"a": "del", "c": "c1", "n": "f"}, call1,
                                     {"a": "unload"}]))
+    # the statement that takes the last reference away, followed BY THE SAME SCRIPT - no yield to the event loop - by
+    # an occurrence the function was waiting for: "after which no occurrence runs the old function".  victims: the
+    # run the occurrence must NOT cause (used by the corruption self-test)
+    e1, e1s1, sa = D(ev=["e1"]), D(ev=["e1"], svc=["s1"]), D(st=["a"])
+    fire, seta = {"a": "fire", "e": "e1"}, {"a": "set", "x": "a"}
+    calls1 = {"a": "call", "s": "s1", "data": "p=1", "rr": False}
+    tick = {}
+    for tv in ("exec", "run"):
+        T = {"tick": True, "tvia": tv}
+        tick["del-fire-" + tv] = ([
+            {"a": "define", "c": "c1", "n": "f", "d": e1, "g": 1}, {"a": "define", "c": "c1", "n": "g", "d": e1, "g": 2},
+            dict({"a": "del", "c": "c1", "n": "f"}, **T), fire, fire, {"a": "unload"}], [(3, victim_run(fire, 1))])
+        tick["del-call-" + tv] = ([
+            {"a": "define", "c": "c2", "n": "f", "d": e1s1, "g": 1}, calls1, dict({"a": "del", "c": "c2", "n": "f"}, **T), calls1,
+            calls1, fire], [(3, victim_run(calls1, 1))])
+        tick["del-set-" + tv] = ([
+            {"a": "define", "c": "c1", "n": "f", "d": sa, "g": 1}, {"a": "define", "c": "c1", "n": "g", "d": D(st=["a", "b"]), "g": 2},
+            dict({"a": "del", "c": "c1", "n": "f"}, **T), seta, seta], [(3, victim_run(seta, 1))])
+        # a closure kept in the dict slot / the list
+        tick["clearD-fire-" + tv] = ([
+            {"a": "push", "c": "c1", "d": e1, "where": "D", "via": "exec", "g": 1},
+            {"a": "push", "c": "c1", "d": e1, "where": "L", "via": "exec", "g": 2},
+            dict({"a": "clear", "c": "c1", "where": "D"}, **T), fire, dict({"a": "pop", "c": "c1"}, **T), fire, fire],
+            [(3, victim_run(fire, 1)), (5, victim_run(fire, 2))])
+        tick["session-del-fire-" + tv] = ([
+            {"a": "define", "c": "c3", "n": "f", "d": D(ev=["e1"], st=["a"], svc=["s2"]), "g": 1},
+            dict({"a": "del", "c": "c3", "n": "f"}, **T), fire, seta, {"a": "call", "s": "s2", "data": "-", "rr": False}],
+            [(2, victim_run(fire, 1))])
+        # overwriting the last reference: rebinding the name to another function
+        tick["rebind-fire-" + tv] = ([
+            {"a": "define", "c": "c1", "n": "f", "d": e1, "g": 1}, {"a": "define", "c": "c1", "n": "g", "d": D(ev=["e2"]), "g": 2},
+            dict({"a": "rebind", "c": "c1", "n": "f", "m": "g"}, **T), fire, {"a": "fire", "e": "e2"}, fire], [(3, victim_run(fire, 1))])
+        # the shutdown trigger of the deleted function runs (once), the function itself does not
+        tick["del-shutdown-" + tv] = ([
+            {"a": "define", "c": "c1", "n": "f", "d": D(ev=["e1"], tt=["shutdown", "startup"]), "g": 1},
+            dict({"a": "del", "c": "c1", "n": "f"}, **T), fire, fire, {"a": "unload"}], [(2, victim_run(fire, 1))])
+    # redefinition / a store over the dict slot: the old function never runs; whether the new one already reacts is
+    # not specified
+    tick["redef-fire"] = ([
+        {"a": "define", "c": "c1", "n": "f", "d": e1, "g": 1},
+        {"a": "define", "c": "c1", "n": "f", "d": D(ev=["e1"], st=["b"], svc=["s2"]), "g": 2, "tick": True}, fire, fire],
+        [(2, victim_run(fire, 1))])
+    tick["redef-call"] = ([
+        {"a": "define", "c": "c1", "n": "f", "d": e1s1, "g": 1},
+        {"a": "define", "c": "c1", "n": "f", "d": D(ev=["e1"], svc=["s2"]), "g": 2, "tick": True}, calls1, calls1, fire],
+        [(2, victim_run(calls1, 1))])
+    for tv in ("exec", "run"):
+        tick["storeD-fire-" + tv] = ([
+            {"a": "push", "c": "c2", "d": e1, "where": "D", "via": "exec", "g": 1},
+            {"a": "push", "c": "c2", "d": D(ev=["e1"], st=["c"]), "where": "D", "via": tv, "g": 2, "tick": True}, fire, fire],
+            [(2, victim_run(fire, 1))])
     cases = []
+    for name, (acts, victims) in tick.items() if race else []:
+        w.append(("tick-" + name, both, acts, True, [{"step": i, "run": v} for i, v in victims]))
     for name, subs, acts, *opt in w:
         for sub in subs:
             cases.append({"id": "w/%s/%s" % (name, sub), "sub": sub, "started": opt[0] if opt else True,
-                          "ctxs": ["c1", "c2", "c3"], "steps": [{"act": a} for a in acts], "witness": True})
+                          "ctxs": ["c1", "c2", "c3"], "steps": [{"act": dict(a)} for a in acts], "witness": True})
+            if len(opt) > 1:
+                cases[-1]["victims"] = opt[1]
     # consecutive positions go to consecutive workers (hash seeds 0..3 in turn): keep the four copies of the
     # hash-seed dependent witness adjacent per subsystem so that each subsystem meets every seed
     nd = [c for c in cases if "/notifydel" in c["id"]]
@@ -1438,7 +1628,7 @@ def nontrivial(c):
     return ran and len(tabs) > 1
 
 
-SELFTEST_FIRST = ["w/out/dm", "w/modimp-run-c1/dm", "w/loadimp/legacy", "w/failload/legacy", "w/failimport/dm", "w/case-redef/dm",
+SELFTEST_FIRST = ["w/tick-del-fire-run/dm", "w/tick-del-call-exec/dm", "w/tick-clearD-fire-run/legacy", "w/out/dm", "w/modimp-run-c1/dm", "w/loadimp/legacy", "w/failload/legacy", "w/failimport/dm", "w/case-redef/dm",
                   "w/case-move/legacy", "w/failboot/dm"]
 
 
@@ -1511,6 +1701,7 @@ def main_common(ctx, prop, mc_jobs, sim_consts, pool, sizes):
     rnd_m = [gen_random_case(ctx.seed * 100000 + 50000 + i, sizes["steps"], allctx, set(ALL_FLAGS)) for i in range(sizes["rnd"])]
     cases = witnesses(race=sizes.get("race", 0) > 0)
     cases += to_cases([gen_race(random.Random(ctx.seed * 1000 + 77 + i)) for i in range(sizes.get("race", 0))], allctx, "X/u")
+    cases += to_cases([gen_tick(random.Random(ctx.seed * 1000 + 177 + i)) for i in range(sizes.get("tick", 0))], allctx, "X/t")
     cases += to_cases(beh_u, allctx, "R/u")
     cases += to_cases(rnd_u, allctx, "T/u")
     masked = to_cases(beh_m, allctx, "R/m") + to_cases(rnd_m, allctx, "T/m")
@@ -1523,12 +1714,12 @@ def main_common(ctx, prop, mc_jobs, sim_consts, pool, sizes):
     byid = {c["id"]: c for c in done}
     accepted, rejections = validate(
         ctx, done, "main",
-        beside=lambda acc: selftest(ctx, sorted([byid[i] for i in acc if len(byid[i]["steps"]) >= 4], key=selftest_rank)[:14]))
+        beside=lambda acc: selftest(ctx, sorted([byid[i] for i in acc if len(byid[i]["steps"]) >= 4], key=selftest_rank)[:17]))
     acc_cases = [byid[i] for i in accepted]
     # (under a code mutant the directed recordings may all be rejected: those are reported, not a machinery failure)
-    if not [r for r in rejections if not r["flags"]] and ctx.cov.get("selftest_corruption_kinds_of_round3") != ["case", "fail", "import"]:
-        raise MachineryFailure("selftest: no accepted recording with a module import / failed load / upper-case service name "
-                               "was corrupted (have %s)" % ctx.cov.get("selftest_corruption_kinds_of_round3"))
+    if not [r for r in rejections if not r["flags"]] and ctx.cov.get("selftest_corruption_kinds_of_round3") != ["case", "fail", "import", "tick"]:
+        raise MachineryFailure("selftest: no accepted recording with a module import / failed load / upper-case service name / "
+                               "occurrence right behind a deleting statement was corrupted (have %s)" % ctx.cov.get("selftest_corruption_kinds_of_round3"))
     ctx.cov["phase_wall_s"] = {"model_checking_and_simulation": round(t_gen - ctx.t0, 1), "execution_on_real_code": round(t_exec - t_gen, 1),
                                "trace_validation": round(time.time() - t_exec, 1)}
     # coverage
@@ -1540,6 +1731,12 @@ def main_common(ctx, prop, mc_jobs, sim_consts, pool, sizes):
     ctx.cov["witness_recordings"] = len([c for c in done if c["id"].startswith("w/")])
     ctx.cov["evaluations"] = sum(len(observed(c)) for c in done)
     ctx.cov["rushed_pairs"] = sum(1 for c in done for s in c["steps"] if s["act"].get("rush"))
+    ctx.cov["occurrences_right_behind_a_statement"] = {}
+    for c in done:
+        for s, nx in zip(c["steps"], c["steps"][1:]):
+            if s["act"].get("tick"):
+                key = "%s(%s)+%s/%s" % (s["act"]["a"], "exec" if s["act"]["a"] == "define" else s["act"].get("via" if s["act"]["a"] == "push" else "tvia", "exec"), nx["act"]["a"], c["sub"])
+                ctx.cov["occurrences_right_behind_a_statement"][key] = ctx.cov["occurrences_right_behind_a_statement"].get(key, 0) + 1
     ctx.cov["distinct_nontrivial"] = len({case_key(c) for c in done if nontrivial(c)})
     ctx.cov["rule"] = ("one case = one action sequence (TLC-simulated behaviour of Lifecycle.tla, random longer sequence, or "
                        "directed witness) executed on the real integration in one subsystem (dm / legacy) with an observation "
@@ -1571,8 +1768,12 @@ def main_common(ctx, prop, mc_jobs, sim_consts, pool, sizes):
         ctx.sample({"id": c["id"], "steps": [{"act": s["act"], "runs": s["obs"]["runs"], "cnt": s["obs"]["cnt"],
                                                "sub": s["obs"]["sub"]} for s in observed(c)[:8]]})
     ctx.assumptions += [
-        "the code is sampled at quiescence only (settle + 10 ms of virtual time + gc.collect()); the window between a "
-        "deletion and the completion of the deferred stop is explored in the model (Eager = FALSE) and not required of the code",
+        "the code is sampled at quiescence (settle + 10 ms of virtual time + gc.collect()) and - tick pairs - by an occurrence "
+        "the same script produces right behind a structural statement, before it yields to the event loop; occurrences "
+        "from OTHER tasks between a deletion and the next loop iteration are explored in the model only (Eager = FALSE)",
+        "whether a function created by a statement already reacts to an occurrence produced right behind that statement is "
+        "not specified (the model allows both); a call right behind the statement is made without response and not of a "
+        "service name the new definition declares",
         "state trigger expressions are always true (or any-change names): every change of a watched entity runs the function; "
         "expression truth is C04's business",
         "cross-context service conflicts are generated only for declarations with one service; while HA is starting no "
